@@ -638,6 +638,12 @@ def struct_pack(p: Path, fmt: str, vals: list) -> SBytes:
                 tv = z3.If(tv < 0, tv + (1 << (8 * size)), tv)
                 if p.entails(tv >= 0) is False:
                     pass
+            pv = getattr(v, "prov", None)
+            if not signed and pv is not None and pv[0] == "from_bytes" and pv[3] == size and pv[2] == order:
+                piece = pv[1]  # the value was read from exactly these bytes in this order (A-struct)
+                p.assumption_ids.add("A-struct")
+                out = piece if out is None else bytes_concat(out, piece)
+                continue
             digits = [(tv / (1 << (8 * j))) % 256 if j else tv % 256 for j in range(size)]
             if size == 1:
                 digits = [tv]
@@ -684,7 +690,11 @@ def struct_unpack(p: Path, fmt: str, data: Any, offset: Any = 0, exact: bool = T
                 t = term if t is None else t + term
             if signed:
                 t = z3.If(t >= (1 << (8 * size1 - 1)), t - (1 << (8 * size1)), t)
-            res.append(mk_int(t))
+            r = mk_int(t)
+            if isinstance(r, SInt) and not signed:
+                base = z3.simplify(toff + pos)
+                r.prov = ("from_bytes", SBytes(size1, lambda i, b=b, base=base: b.at(base + i), f"{b.name}[{pos}:]"), order, size1)
+            res.append(r)
             pos += size1
     return tuple(res)
 
@@ -761,6 +771,15 @@ def eq_term(p: Path, a: Any, b: Any) -> Any:
         return bool(a == b)
     if a is None or b is None:
         return False  # a symbolic value is never None (Optional is forked at creation)
+    # SpsdkEnum.__eq__(x) is  self.tag == x or self.label == x  (real semantics of the repository's enum base class)
+    for x, y in ((a, b), (b, a)):
+        if not has_sym(x) and type(x).__module__.startswith("spsdk") and hasattr(x, "tag") and hasattr(x, "label") \
+                and getattr(type(x).__eq__, "__module__", "") == "spsdk.utils.spsdk_enum":
+            if is_int_like(y):
+                return int_term(y) == x.tag
+            if isinstance(y, SStr):
+                return y.t == p.strc(x.label)
+            return False
     if isinstance(a, SReal) or isinstance(b, SReal):
         if is_int_like(a) or is_int_like(b) or (isinstance(a, SReal) and isinstance(b, SReal)):
             return real_term(a) == real_term(b)
